@@ -490,6 +490,27 @@ def mutations(base, label, sites="all"):
                 if t2.get("name") == t.get("name"):
                     t2.set("cast", c)
             out.append(Variant("%s/type-map %s->%s" % (label, t.get("name"), c), s))
+    # a type is spelled differently - consistently, in the schema and in the mapping: names are arbitrary
+    # labels, the package must come out as for the original spelling (the driver expects the mapped Go types)
+    spell = {"title": lambda n: n[:1].upper() + n[1:].lower(), "lower": lambda n: n.lower(), "suffix": lambda n: n + "_v2"}
+    for ti, t in enumerate(list(b.types_root.iter("type"))):
+        mine = [f.get("name") for f in b.fields().values() if f.get("type") == t.get("name")]
+        if not mine:
+            continue
+        for si, (how, fn) in enumerate(sorted(spell.items())):
+            if sites != "all" and (ti + si) % 3 != 0:
+                continue
+            new = fn(t.get("name"))
+            if new == t.get("name") or any(t2.get("name") == new for t2 in b.types_root.iter("type")):
+                continue
+            s = b.clone()
+            for t2 in s.types_root.iter("type"):
+                if t2.get("name") == t.get("name"):
+                    t2.set("name", new)
+            for f in s.root.find("fields").findall("field"):
+                if f.get("type") == t.get("name"):
+                    f.set("type", new)
+            out.append(Variant("%s/type-respelled %s->%s" % (label, t.get("name"), new), s))
     # the same group name with different members in two places (the generator keeps one definition per name)
     multi = {}
     for g in b.root.iter("group"):
@@ -591,6 +612,18 @@ def prepare(repo, scratch):
     if rc != 0:
         print("cannot build fixgen:\n" + out)
         sys.exit(3)
+    # twice: built inside a scratch module that requires the repository under test
+    tw = os.path.join(scratch, "twice-mod")
+    os.makedirs(tw)
+    shutil.copy(os.path.join(os.path.dirname(os.path.abspath(__file__)), "twice", "main.go"), os.path.join(tw, "main.go"))
+    open(os.path.join(tw, "go.mod"), "w").write(
+        "module twice\n\ngo 1.21\n\nrequire github.com/b2broker/simplefix-go v0.0.0\nreplace github.com/b2broker/simplefix-go => %s\n" % repo)
+    shutil.copy(os.path.join(repo, "go.sum"), os.path.join(tw, "go.sum"))
+    c.twice = os.path.join(scratch, "twice")
+    rc, out = sh(["go", "build", "-o", c.twice, "."], cwd=tw)
+    if rc != 0:
+        print("cannot build the twice driver against the generator API:\n" + out)
+        sys.exit(3)
     c.astdiff = os.path.join(scratch, "astdiff")
     rc, out = sh(["go", "build", "-o", c.astdiff, "."], cwd=os.path.join(os.path.dirname(os.path.abspath(__file__)), "astdiff"))
     if rc != 0:
@@ -679,6 +712,17 @@ def run_variant(c, idx, v):
             shutil.rmtree(os.path.join(mod, "abs"), ignore_errors=True)
             shutil.rmtree(os.path.join(mod, "y"), ignore_errors=True)
         shutil.rmtree(os.path.join(mod, "p2"), ignore_errors=True)
+        # one Generator object, two Execute calls (library API): both succeed and agree with the command line run
+        if not v.big or v.name == "fix44":
+            rc5, out5 = sh([c.twice, os.path.join(wd, "schema.xml"), os.path.join(wd, "types.xml"), os.path.join(mod, "t1", "p"), os.path.join(mod, "t2", "p")], cwd=mod, timeout=300)
+            if rc5 == 3:
+                viol.append(("HARNESS:twice", out5[-400:]))
+            elif rc5 != 0:
+                viol.append(("generator-object-not-reusable", out5[-400:]))
+            elif tree_bytes(os.path.join(mod, "t2", "p")) != a:
+                viol.append(("generator-object-not-reusable", "the second Execute of one Generator wrote a package that differs from the command line run"))
+            shutil.rmtree(os.path.join(mod, "t1"), ignore_errors=True)
+            shutil.rmtree(os.path.join(mod, "t2"), ignore_errors=True)
         # compile + driver
         d = Driver(v.sch)
         try:
